@@ -161,6 +161,9 @@ def _savorize_src(cname, ops):
         elif k == 'raise_if_has':
             L += ['        if node.is_mapping() and node.has_attribute(%r):' % op[1],
                   '            raise yatiml.SeasoningError("attribute {%s} is not allowed in {0} or {this} context, 100%%")' % op[1]]
+        elif k == 'raise_bare_if_has':
+            L += ['        if node.is_mapping() and node.has_attribute(%r):' % op[1],
+                  '            raise yatiml.SeasoningError()']
         elif k == 'get_missing':
             # documented way to fail: get_attribute on a missing key
             L += ['        if node.is_mapping():',
